@@ -18,7 +18,7 @@ EXPLANATION = ('Round-trip equality quantifies over all values and is not decide
                'R1.4 MsgPack: for every write overload and every value cell the first byte the writer emits (decision tables of C06) has an '
                'accepting path in the reader method of the same type (decision tables of C07) in both reader implementations. '
                'R1.5 JSON: the result of every rapidjson Accept() (the rendering step) is consumed, and ParseStream over an AutoUTFInputStream '
-               'names AutoUTF as source encoding.')
+               'names AutoUTF as source encoding. R1.6 CSV stream reader: IsEnd() polled between rows is fresh (see C09 R9.6).')
 ASSUMPTIONS = ['pugixml: xml_text::set("") / an element with no appended child parses back as an element without children (pugixml 1.13 manual, parse_default)',
                'rapidjson: Accept() returns false when a handler call fails (Writer::Double for NaN/Inf, transcoding of invalid UTF)']
 TRUSTED = ['clang 14 AST', 'bsfacts', 'tables of C06/C07 (checked against spec/msgpack_spec.py there)']
@@ -277,3 +277,7 @@ def run(prog, rep):
     # ---------------------------------------------------------------- R1.5
     from rules import json_render
     json_render.check(prog, rep, 'R1.5')
+
+    # ---------------------------------------------------------------- R1.6 (CSV stream: rows are neither lost nor invented at chunk boundaries)
+    from rules import c09
+    c09.check_lookahead_fresh(prog, rep, 'R1.6')
